@@ -348,6 +348,39 @@ example : riscvCode true 0x1000#32 [0x97, 0x50, 0x34, 0x12, 0xE7, 0x80, 0x60, 0x
 example : riscvCode false 0x1000#32 [0x17, 0x71, 0x0E, 0x08, 0x12, 0x34, 0x5F, 0xD6] = ([0x97, 0x50, 0x34, 0x12, 0xE7, 0x80, 0x60, 0xFD], 8) := by
   decide +kernel
 
+/-- **Chunk stability of the RISC-V filter**, encoder and decoder (same contract as `bcj_chunk_stable`). -/
+theorem riscv_chunk_stable (e : Bool) : ChunkStable (riscvCode e) := by
+  intro off a b
+  cases e
+  · exact rvDecGo_chunk a.length a b off (Nat.le_refl _)
+  · exact rvEncGo_chunk a.length a b off (Nat.le_refl _)
+
+/-! ## One-shot API = streaming coder -/
+
+open XzVerif.Simple in
+/-- `lzma_bcj_{x86,arm64,riscv}_{encode,decode}(start_offset, buf, size)` leave in `buf` exactly the bytes that the streaming coder
+    (`lzma_simple_coder` set up by the init function with the same start offset, a pass-through next filter, the whole input offered with
+    LZMA_FINISH and enough output space) produces; that call consumes everything and returns LZMA_STREAM_END. -/
+theorem oneshot_eq_stream (id : FilterId) (hid : id = .x86 ∨ id = .arm64 ∨ id = .riscv) (enc : Bool) (off : BitVec 32) (x : List UInt8)
+    (cap : Nat) (hal : off.toNat % id.alignment = 0) (hcap : x.length ≤ cap) (hx : x ≠ []) :
+    ∃ c r, Coder.init id enc Next.passthrough off = some c ∧ oneShot id enc off x = some r
+      ∧ (simpleCode c x cap Action.finish).2 = ⟨x.length, r.1, LZMA_STREAM_END⟩ := by
+  have hlen : 0 < x.length := List.length_pos_iff.mpr hx
+  have hmin : min x.length cap = x.length := Nat.min_eq_left hcap
+  have hne : (x.length == 0) = false := by simp; omega
+  have hcap0 : cap > 0 := by omega
+  rcases hid with rfl | rfl | rfl
+  · refine ⟨_, _, by simp [Coder.init, FilterId.alignment], rfl, ?_⟩
+    simp [simpleCode, simpleCodeMain, copyOrCode, callFilter, filterCode, hmin, hne, hcap0, LZMA_STREAM_END, LZMA_OK]
+  · have h4 : off &&& 3#32 = 0#32 := and_of_mod (k := 2) off (by omega) hal
+    have hoff : off &&& ~~~ 3#32 = off := and_not3 off h4
+    refine ⟨_, _, by simp [Coder.init, hal], rfl, ?_⟩
+    simp [simpleCode, simpleCodeMain, copyOrCode, callFilter, filterCode, hmin, hne, hcap0, hoff, LZMA_STREAM_END, LZMA_OK]
+  · have h2 : off &&& 1#32 = 0#32 := and_of_mod (k := 1) off (by omega) hal
+    have hoff : off &&& ~~~ 1#32 = off := and_not1 off h2
+    refine ⟨_, _, by simp [Coder.init, hal], rfl, ?_⟩
+    simp [simpleCode, simpleCodeMain, copyOrCode, callFilter, filterCode, hmin, hne, hcap0, hoff, LZMA_STREAM_END, LZMA_OK]
+
 /-! ## Bridges to what the code under test does today (lean/XzVerif/Gen/C15.lean is regenerated on every check by running it) -/
 
 open XzVerif.Simple in
